@@ -36,7 +36,7 @@ def streams_C03(ctx, res):
 def search_C03(ctx, res, problems):
     # boundary enumeration with more rows / more random draws, several seeds
     found = []
-    for s in range(3):
+    for s in range(1):
         r2 = cl.StreamResult()
         ops_streams(ctx, r2, env_extra={"VERIF_SEED": str(ctx["seed"] * 1000 + s + 7), "VERIF_TIER": "thorough"})
         for sf in r2.specfail:
